@@ -176,7 +176,8 @@ def one_case(rng, res, intern, stream, root, label):
         after = enc.reencode()
         stream.add(head + f"(AReplace {xref} {after.heap()} {after.ref(root)}))", meta=replay)
   else:
-    tag = rng.choice(l2.TAGS)
+    present = sorted({t for b in all_b for ts in b.__argument_tags__.values() for t in ts}, key=lambda t: t.__name__)
+    tag = rng.choice(present) if present and rng.random() < 0.8 else rng.choice(l2.TAGS)
     got = list(selectors.select(root, tag=tag, check_nonempty=False))
     # independent expectation, in leaves-first order per node it is order-insensitive here
     want_vals = []
@@ -269,11 +270,16 @@ def run(tier: str, seed: int) -> Result:
   n = 500 if tier == "quick" else 15000
   for i in range(n):
     root, _ = l2.gen_dag(rng, rng.randint(2, 12), buildable_types=("Config", "Partial"),
-                         callables=[l2.Ka, l2.Kb, l2.Kc, l2.fa, l2.fd, l2.Dc, l2.fb], with_tags=True, p_share=0.5)
+                         callables=[l2.Ka, l2.Kb, l2.Kc, l2.fa, l2.fd, l2.Dc, l2.fb, l2.fh, l2.fe], with_tags=True, p_share=0.5)
     if not isinstance(root, config_lib.Buildable):
       root = fdl.Config(l2.fd, x=root)
     ORIGINAL_CONTAINER_IDS.clear()
     ORIGINAL_CONTAINER_IDS.update(id(x) for x in c02.reachable(root) if isinstance(x, (list, dict)))
+    if rng.random() < 0.2:
+      # a tagged positional-only parameter that has a default and is left unset
+      extra = fdl.Config(l2.fh, rng.randint(0, 5))
+      fdl.add_tag(extra, 1, rng.choice(l2.TAGS))
+      root = fdl.Config(l2.fd, x=root, extra=extra)
     c14.tag_positional(rng, root)
     one_case(rng, res, intern, stream, root, f"dag#{i}")
   return res
